@@ -897,6 +897,16 @@ impl HandlerConfig {
         self.targeted_event_component_access = component_access;
     }
 
+    /// Like [`Self::set_targeted_event_component_access`], but if a received
+    /// event was already configured then the target must match the previous
+    /// access as well.
+    pub(crate) fn and_targeted_event_component_access(&mut self, component_access: &ComponentAccess) {
+        self.targeted_event_component_access = match self.received_event {
+            ReceivedEventId::None => component_access.clone(),
+            _ => self.targeted_event_component_access.and(component_access),
+        };
+    }
+
     /// Inserts a global event into the set of events this handler is able to
     /// send.
     ///
